@@ -42,7 +42,7 @@ func verifC13_response() {
 	}
 	resp := &http.Response{StatusCode: vInt("status", 100, 599), Header: http.Header{}}
 	accFocus := vParam("accFocus", 0) == 1
-	extFocus := vParam("extFocus", 0) == 1 || accFocus
+	extFocus := vParam("extFocus", 0) == 1 || accFocus || vParam("protoFocus", 0) == 1
 	if extFocus {
 		// everything but the extension header is a fixed valid response
 		resp.StatusCode = 101
@@ -85,6 +85,12 @@ func verifC13_response() {
 	if extFocus {
 		proto = nil
 	}
+	if vParam("protoFocus", 0) == 1 {
+		// everything but the subprotocol is a fixed valid response: asked for "kafka"/"soap", answered with the same, in
+		// another case, with a look-alike equal only under Unicode case folding, with something else, with nothing
+		opts.Subprotocols = []string{"kafka", "soap"}
+		proto = [][]string{{"kafka"}, {"SOAP"}, {"\u212aafka"}, {"\u017foap"}, {"mqtt"}, nil}[vChoose("protoVariant", 6)]
+	}
 	var ext []string
 	extKnown, extHonourable := false, true // concrete responses: whether a client that offered compression may accept them
 	if vParam("symExt", 1) == 1 {
@@ -113,7 +119,11 @@ func verifC13_response() {
 	p := first(proto)
 	protoOK := vEqStr(p, "")
 	for _, a := range opts.Subprotocols {
-		protoOK = vOr(protoOK, strings.EqualFold(a, p))
+		if vParam("protoFocus", 0) == 1 {
+			protoOK = vOr(protoOK, vAsciiEqualFold(a, p))
+		} else {
+			protoOK = vOr(protoOK, strings.EqualFold(a, p))
+		}
 	}
 	ok = vAnd(ok, protoOK)
 	wantOpts, extErr := verifyServerExtensions(copts, resp.Header)
